@@ -33,6 +33,7 @@ type lcConfig struct {
 	loggers   []lcLogger // "root" may be among them
 	valid     bool
 	late      bool // fails after things were started
+	badprop   bool // a property setter rejects its value (the last step of Refresh, after tags and handles were bound)
 	why       string
 }
 
@@ -99,6 +100,7 @@ func lcConfigs() []lcConfig {
 		{name: "badwild2", appenders: []string{"a1"}, why: "a wildcard is not of the form ..._*", loggers: []lcLogger{{name: "l1", tags: "aaa_*_bbb"}, {name: "l2", tags: "aaa"}}},
 		{name: "nohandle", appenders: []string{"a1"}, why: "a requested handle name is not configured", loggers: []lcLogger{{name: "l1", tags: "aaa"}}},
 		{name: "late", appenders: []string{"a1"}, late: true, why: "a logger fails to start", loggers: []lcLogger{{name: "l1", tags: "aaa"}, {name: "l2", tags: "xyz_www", failing: true}}},
+		{name: "badprop", appenders: []string{"a1"}, late: true, badprop: true, why: "a property value is rejected by its setter", loggers: []lcLogger{{name: "l1", tags: "aaa_*"}, {name: "l2", tags: "xyz_www"}, {name: "root"}}},
 		{name: "noapp", appenders: nil, why: "no appenders section", loggers: []lcLogger{{name: "l1", tags: "aaa"}, {name: "l2", tags: "xyz_www"}}},
 	}
 }
@@ -223,6 +225,12 @@ func (w *lcWorld) newState() *lcState {
 					}
 				}
 			}
+			if sig, ok := u.Elem().Underlying().(*types.Signature); ok && sig.Params().Len() == 1 && sig.Results().Len() == 1 && isStringType(u.Key()) && isStringType(sig.Params().At(0).Type()) {
+				// the property registry: one property whose setter rejects the value "bad"
+				k := constant.MakeString("lcProp").ExactString()
+				mv.M[k] = &ExtFn{Name: "lcprop"}
+				mv.Keys = append(mv.Keys, k)
+			}
 			ip.Globals[g] = ip.newObj(mv)
 		case *types.Struct:
 			if nt, ok := types.Unalias(et).(*types.Named); ok && nt.Obj().Pkg() != nil && nt.Obj().Pkg().Path() != logPath {
@@ -250,6 +258,16 @@ func (w *lcWorld) newState() *lcState {
 			return &Sym{Name: "field"}, true
 		}
 		return nil, false
+	}
+	ip.OnExt = func(ip *Interp, name string, args []AV) AV {
+		if name == "lcprop" {
+			if len(args) == 1 && avStr(args[0]) == "bad" {
+				return ip.errVal("invalid lcProp")
+			}
+			return NilV{}
+		}
+		ood("external function %s", name)
+		return nil
 	}
 	ip.OnInvoke = func(ip *Interp, recv *Sym, method string, args []AV) (AV, bool) {
 		kind, name, _ := strings.Cut(recv.Name, ":")
@@ -345,6 +363,11 @@ func (st *lcState) configData(cfg lcConfig) AV {
 	for _, l := range cfg.loggers {
 		put("logger."+l.name+".type", "Stub")
 	}
+	if cfg.badprop {
+		put("lcProp", "bad")
+	} else {
+		put("lcProp", "fine")
+	}
 	return m
 }
 
@@ -369,7 +392,7 @@ func (c *Ctx) checkLifecycleSemantics(r *Report, ro *Roles, rule string, thoroug
 		return false
 	}
 	key := rule + ":sequences"
-	ops := []string{"refresh:A", "refresh:B", "refresh:D", "refresh:dup", "refresh:late", "refresh:nohandle", "destroy", "probe", "register", "handle"}
+	ops := []string{"refresh:A", "refresh:B", "refresh:D", "refresh:dup", "refresh:late", "refresh:badprop", "refresh:nohandle", "destroy", "probe", "register", "handle"}
 	maxLen := 3
 	if thorough {
 		maxLen = 4
